@@ -4,6 +4,8 @@ pub mod val;
 pub mod wrappers;
 pub mod observe;
 pub mod tracex;
+pub mod pure;
+pub mod pure2;
 
 use std::io::{BufRead, Write};
 
